@@ -29,15 +29,14 @@ from .common import Report, run_tlc, SPEC, NCPU, MachineryError
 from . import rolllog_harness as H
 
 SPECDIR = os.path.join(SPEC, 'rolllog')
-ALL_DEFECTS = ('overwrite', 'refresh_skip')
+ALL_DEFECTS = ('overwrite', 'refresh_skip', 'frac_ts')
 PROPS = ('C13_ExactlyOnceInOrder', 'C13_Budget', 'C13_NewestKept', 'C13_NoOverwrite')
 PROOFS = {'quick': ['RollLog_quick_w', 'RollLog_quick_r1', 'RollLog_quick_r2', 'RollLog_quick_re', 'RollLog_quick_2r',
                     'RollLog_quick_bin'],
           'thorough': ['RollLog_thorough_w', 'RollLog_thorough_r1', 'RollLog_thorough_r2', 'RollLog_thorough_re',
                        'RollLog_thorough_2r', 'RollLog_thorough_s3', 'RollLog_thorough_bin']}
 COVERS = {'quick': ['RollLogCover_r1', 'RollLogCover_w', 'RollLogCover_r2', 'RollLogCover_re', 'RollLogCover_bin'],
-          'thorough': ['RollLogCover_r1', 'RollLogCover_w', 'RollLogCover_r2', 'RollLogCover_re', 'RollLogCover_bin',
-                       'RollLogCover_big']}
+          'thorough': ['RollLogCover_r1', 'RollLogCover_w', 'RollLogCover_r2', 'RollLogCover_re', 'RollLogCover_bin']}
 LINE_MODES = ('txt', 'json', 'binl')
 
 
@@ -241,7 +240,8 @@ def run(ctx):
         for d in ALL_DEFECTS:
             # "overwrite": that switch alone.  Any other: all switches on (labels then mean for the model what they
             # mean for the code) in the sub-specification SpecM whose roll-overs only go to strictly newer names.
-            n = sd.derive('RollLogExhibit', f'Defect_{d}', defects=[d] if d == 'overwrite' else ALL_DEFECTS)
+            n = sd.derive('RollLogExhibitW' if d == 'frac_ts' else 'RollLogExhibit', f'Defect_{d}',
+                          defects=[d] if d == 'overwrite' else ALL_DEFECTS)
             if d != 'overwrite':
                 cf = os.path.join(sd.d, n + '.cfg')
                 txt = open(cf).read().replace('SPECIFICATION SpecC', 'SPECIFICATION SpecM')
@@ -284,7 +284,7 @@ def run(ctx):
             n = sd.derive(base, base + '_asis', defects=present)
             cov_futs.append((base, n, tpool.submit(run_tlc, sd.d, n, 'RollLogCover', workers=nw, timeout=3000)))
         sim_n = sd.derive('RollLogSim', 'RollLogSim_asis', defects=present)
-        nsim = 300 if ctx.quick else 6000
+        nsim = 300 if ctx.quick else 1000         # per TLC worker
         sim_fut = tpool.submit(run_tlc, sd.d, sim_n, 'RollLogCover', workers=nw, timeout=3000,
                                simulate=f'num={nsim}', depth=30, seed=ctx.seed + 13)
         per_cfg_sample = 2500 if ctx.quick else None
@@ -361,6 +361,42 @@ def run(ctx):
     finally:
         pool.terminate()
         tpool.shutdown(wait=False, cancel_futures=True)
+        sd.close()
+
+
+def selftest(ctx=None):
+    """The binding must notice a wrong expectation (BUILDER_BRIEF 9): (a) the projected target state of the last node of
+    each of 40 cover paths is corrupted - every replay must report drift; (b) the monitor is told a wrong record size
+    for one record of a clean history - it must report a torn chunk; (c) it is told nothing wrong - it must be silent.
+    run() performs (a) on every run and the trace variant of it (a corrupted recorded trace must be rejected by TLC)."""
+    import multiprocessing as mp
+    ctx = ctx or common.Ctx('C13')
+    common.use_repo()
+    sd = SpecDir()
+    pool = mp.get_context('fork').Pool(4)
+    try:
+        res = run_tlc(sd.d, 'RollLogCover_r1', 'RollLogCover', workers=4, timeout=600)
+        if not res.ok:
+            raise MachineryError(f'selftest: TLC failed: {res.error or res.violated}')
+        lines = split_emit(res.out)
+        st = replay_emitted(pool, lines, [('txt',)], 0, sample=40, rng=common.rng(ctx, 'selftest'), corrupt=True,
+                            nchunks=4)
+        ok_a = st['ndrift'] == st['paths'] > 0
+        out = {}
+        for lie in (True, False):
+            with H.World('txt') as world:
+                rp = H.Replayer(world, 4, 100, readers=('r1',), autoref=('r1',))
+                for lab in (('write', 'w', 2, 1), ('write', 'w', 1, 0), ('read', 'r1', 0, 0)):
+                    rp.do(lab)
+                    if lie and lab[0] == 'write':
+                        rp.mon.recsz[1] = 3
+                out[lie] = [v[2].get('what') for v in rp.mon.violations]
+        ok_b, ok_c = out[True] == ['torn'], out[False] == []
+        print(f'selftest C13: corrupted expectations rejected {st["ndrift"]}/{st["paths"]}; monitor with a wrong record '
+              f'size: {out[True]}; monitor on the clean history: {out[False]}')
+        return 0 if (ok_a and ok_b and ok_c) else 2
+    finally:
+        pool.terminate()
         sd.close()
 
 
